@@ -74,6 +74,7 @@ def main(tier, seed):
     tp = tier_params(tier)
     rep = Report(PROP, tier, seed)
     sess = Session(tp["timeout"])
+    sess.keep_smt2 = tier == "thorough"
     shapes = [(3, 2)] if tier == "quick" else [(3, 2), (2, 3), (4, 2)]
     rep.bounds = {"tables": shapes, "indices": "symbolic ints in range", "monte_carlo_episode_len": [1, 2] if tier == "quick" else [1, 2, 3],
                   "values": "all reals for table entries, reward, gamma, learning rate; terminated in {0,1}"}
